@@ -177,6 +177,24 @@ class Transformer(Visitor):
         rebuilt = tuple(self.visit(i, **kwargs) for i in o.children)
         return self._rebuild(o, rebuilt)
 
+    def visit_MultiConditional(self, o, **kwargs):
+        """
+        Handler for :any:`MultiConditional` objects.
+
+        The bodies are visited one by one, so that :attr:`values` and
+        :attr:`bodies` stay aligned if a body is (or becomes) empty.
+        """
+        if o in self.mapper:
+            return self.visit_Node(o, **kwargs)
+
+        expr = self.visit(o.expr, **kwargs)
+        values = tuple(self.visit(v, **kwargs) for v in o.values)
+        bodies = tuple(self.visit(b, **kwargs) for b in o.bodies)
+        else_body = self.visit(o.else_body, **kwargs)
+        return self._rebuild(o, (expr, values, bodies, else_body))
+
+    visit_TypeConditional = visit_MultiConditional
+
     def visit_ScopedNode(self, o, **kwargs):
         """
         Handler for :class:`ScopedNode` objects.
